@@ -13,7 +13,7 @@ RULES = {
     'C09.R2': 'find_terminal pushes the label it follows and returns the node it reached; PolyhedraGen::next builds the predicate from the parent edge of the node it reports',
 }
 WRAPPERS = {
-    'PolyhedraIter::new': ('PolyhedraIter::PolyhedraIter{PolyhedraGen::new(tree), tree}', [], 'generator from the root of the tree it is later stepped with'),
+    'PolyhedraIter::new': (['PolyhedraIter::PolyhedraIter{PolyhedraGen::new(tree), tree}', 'PolyhedraIter::PolyhedraIter{PolyhedraGen::with_root(tree, Tree::get_root_idx(tree)), tree}'], [], 'generator from the root of the tree it is later stepped with'),
     'PolyhedraIter::skip_subtree': ('PolyhedraGen::skip_subtree(self.iter)', [], 'skips in the wrapped generator'),
     'PolyhedraGen::new': ('PolyhedraGen::with_root(tree, Tree::get_root_idx(tree))', [], 'starts at the root'),
     'PolyhedraGen::skip_subtree': ('DfsPre::skip_subtree(self.iter)', [], 'skips in the underlying depth-first traversal (the predicate stack is cut back by the next step, C09.R3)'),
